@@ -207,41 +207,17 @@ func c06(c *core.Ctx) {
 					continue
 				}
 				key := typeKey(ct) + "." + m + ":default-cloner"
-				// loads of the channel's cloner field
-				var fieldLoads []ssa.Value
-				core.Instrs(fn, func(in ssa.Instruction) {
-					if u, ok := in.(*ssa.UnOp); ok && u.Op == token.MUL {
-						if _, f, ok := core.FieldOf(u); ok && f == "cloner" && core.NamedOf(u.Type()) == "Cloner" {
-							fieldLoads = append(fieldLoads, u)
-						}
-					}
-				})
-				if len(fieldLoads) == 0 {
-					c.Fail(key, fn.Pos(), "entry point does not read the channel's cloner")
-					continue
-				}
 				// every use of a Cloner value (invoke, store into a struct field, closure capture of its cell)
-				// must see a value that is non-nil: origins = field load under != nil, or ProtoCloner boxing
+				// must see a value that is non-nil: the channel's field under != nil, the default ProtoCloner, or
+				// the result of a helper of the package all of whose returns are such values
 				bad := ""
+				readsField := false
 				checkVal := func(v ssa.Value, at ssa.Instruction, what string) {
-					for _, l := range clonerLeaves(v, at) {
-						if mi, ok := l.v.(*ssa.MakeInterface); ok && core.NamedOf(mi.X.Type()) != "" {
-							continue // a concrete cloner (ProtoCloner{})
-						}
-						isField := false
-						for _, fl := range fieldLoads {
-							if l.v == fl {
-								isField = true
-							}
-						}
-						if isField && core.GuardedBy(l.at, func(f core.Fact) bool {
-							return f.Op == token.NEQ && core.IsNilConst(f.Y) && (f.X == l.v || sameOrigins(f.X, l.v))
-						}) {
-							continue
-						}
-						if isField && replacedWhenNil(fn, l.v, at) {
-							continue
-						}
+					ok, reads := clonerNonNil(fn, v, at, 0)
+					if reads {
+						readsField = true
+					}
+					if !ok {
 						bad = what + " may see a nil cloner (the channel's field, not replaced by the default)"
 					}
 				}
@@ -275,6 +251,9 @@ func c06(c *core.Ctx) {
 						}
 					}
 				})
+				if bad == "" && !readsField {
+					bad = "entry point does not read the channel's cloner"
+				}
 				c.Check(bad == "", key, fn.Pos(), "every user of the cloner (calls, stream objects, literals) sees the field under != nil or the default ProtoCloner", bad)
 			}
 		}
@@ -283,14 +262,16 @@ func c06(c *core.Ctx) {
 }
 
 type clLeaf struct {
-	v  ssa.Value
-	at ssa.Instruction
+	v    ssa.Value
+	at   ssa.Instruction
+	succ *ssa.BasicBlock // the φ's block when at is the terminator of one of its predecessors
 }
 
 // clonerLeaves decomposes a Cloner value into its leaves, flow-sensitively.
 func clonerLeaves(v ssa.Value, at ssa.Instruction) []clLeaf {
 	var out []clLeaf
 	seen := map[ssa.Value]bool{}
+	var succ *ssa.BasicBlock
 	var rec func(v ssa.Value, at ssa.Instruction)
 	rec = func(v ssa.Value, at ssa.Instruction) {
 		if seen[v] {
@@ -301,7 +282,10 @@ func clonerLeaves(v ssa.Value, at ssa.Instruction) []clLeaf {
 		case *ssa.Phi:
 			for i, e := range x.Edges {
 				pred := x.Block().Preds[i]
+				saved := succ
+				succ = x.Block()
 				rec(e, pred.Instrs[len(pred.Instrs)-1])
+				succ = saved
 			}
 			return
 		case *ssa.UnOp:
@@ -319,7 +303,7 @@ func clonerLeaves(v ssa.Value, at ssa.Instruction) []clLeaf {
 				}
 			}
 		}
-		out = append(out, clLeaf{v, at})
+		out = append(out, clLeaf{v, at, succ})
 	}
 	rec(v, at)
 	return out
@@ -922,4 +906,53 @@ func c06CloneFresh(c *core.Ctx, fn *ssa.Function) {
 		}
 	}
 	c.Check(bad == "", key, fn.Pos(), "no return hands back the input object", bad)
+}
+
+// clonerNonNil: the Cloner value v, as seen at instruction at in fn, is never
+// nil: each of its leaves is a concrete cloner boxed into the interface, the
+// channel's cloner field on a != nil edge (or replaced by the default when
+// nil), or the result of a package function whose returns all are. reads
+// reports whether the channel's field is among the leaves.
+func clonerNonNil(fn *ssa.Function, v ssa.Value, at ssa.Instruction, depth int) (ok, reads bool) {
+	ok = true
+	for _, l := range clonerLeaves(v, at) {
+		if mi, isMI := l.v.(*ssa.MakeInterface); isMI && core.NamedOf(mi.X.Type()) != "" {
+			continue // a concrete cloner (ProtoCloner{})
+		}
+		if u, isU := l.v.(*ssa.UnOp); isU && u.Op == token.MUL {
+			if _, f, isF := core.FieldOf(u); isF && f == "cloner" && core.NamedOf(u.Type()) == "Cloner" {
+				reads = true
+				if core.LeafGuarded(core.ErrLeaf{V: l.v, At: l.at, Succ: l.succ}, func(f core.Fact) bool {
+					return f.Op == token.NEQ && core.IsNilConst(f.Y) && (f.X == l.v || sameOrigins(f.X, l.v))
+				}) {
+					continue
+				}
+				if replacedWhenNil(fn, l.v, at) {
+					continue
+				}
+				ok = false
+				continue
+			}
+		}
+		if call, _, isCall := core.CallResult(l.v); isCall && depth < 2 {
+			callee := core.InfoOf(&call.Call).Static
+			if callee != nil && callee.Blocks != nil && core.PkgIs(callee, "inprocgrpc") && callee.Signature.Results().Len() == 1 {
+				all := true
+				for _, r := range core.Returns(callee) {
+					o2, r2 := clonerNonNil(callee, r.Results[0], r, depth+1)
+					if r2 {
+						reads = true
+					}
+					if !o2 {
+						all = false
+					}
+				}
+				if all {
+					continue
+				}
+			}
+		}
+		ok = false
+	}
+	return ok, reads
 }
